@@ -71,7 +71,7 @@ class Monitor:
                 cap = res['cap'].get(j)
                 # shape of F01: the call ran (holding the lock) the transition of the state object it had selected earlier
                 stale = (concurrent and j is not None and cap is not None and cap != old and (cap, new) in self.doc
-                         and not res['violations'])
+                         and not res['violations'] and not ctx.get('long_wait'))
                 wit = dict(ctx, calls=[list(c) for c in calls], edge=[old, new], selected_state=cap)
                 if stale:
                     self.run.add_finding(Finding(F01_KEY, F01_WHAT, wit, observed=f'{old}->{new}', expected='an edge of the documented graph'))
@@ -371,7 +371,89 @@ def helper_scenarios(tmp, state, direction, mon: Monitor, run: Run):
         run.case({'s': state, 'd': direction, 'op': op, 'late': True}, kind='late-listener')
 
 
-def natural(tmp, state, direction, cfg, calls, mon: Monitor, manager=False):
+class EdgeRecorder:
+    def __init__(self):
+        self.edges = []
+
+    async def on_transfer_state_changed(self, transfer, old, new):
+        self.edges.append((old.name, new.name))
+
+
+def negotiation(mon: Monitor, run: Run, only=None):
+    """transfers driven by the real TransferManager negotiation / message paths (mocked network): whatever the peer
+    answers, every change the listeners are told must be a documented edge and the changes must chain"""
+    import asyncio
+    import warnings
+    from unittest.mock import Mock, MagicMock
+    from vlib import vloop
+    warnings.simplefilter('ignore', RuntimeWarning)    # un-awaited AsyncMock calls of the mocked network
+    from aioslsk.transfer.model import Transfer, TransferDirection
+    from aioslsk.transfer.state import TransferState
+    from aioslsk.protocol.messages import PeerTransferReply, PeerTransferQueueFailed, PeerUploadFailed
+    replies = [('refused', r) for r in (None, 'Cancelled', 'Complete', 'Queued', 'File not shared.', 'File read error.', 'Blocked', 'Banned', '')]
+    replies += [('allowed', None), ('timeout', None), ('disconnect', None)]
+    scenarios = [('_initialize_upload', st, rep) for st in ('QUEUED', 'INCOMPLETE') for rep in replies]
+    for st in L.STATES:
+        for d in L.DIRS:
+            scenarios.append(('_on_peer_transfer_queue_failed', st, d))
+            scenarios.append(('_on_peer_upload_failed', st, d))
+    for sc in scenarios:
+        if only is not None and list(sc) != list(only):
+            continue
+        loop = vloop.new_loop()
+        rec = EdgeRecorder()
+        try:
+            mgr = L.make_manager()
+            mgr._network.queue_server_messages = MagicMock()
+            path, st = sc[0], sc[1]
+            direction = 'UPLOAD' if path == '_initialize_upload' else sc[2]
+            t = Transfer('peer', '@abc\\song.mp3', TransferDirection[direction])
+            t.filesize = 1000
+            t.local_path = '/nonexistent/song.mp3'
+            t.state = TransferState.init_from_state(TransferState.State[st], t)
+            mgr._transfers.append(t)
+            t.state_listeners.append(mgr)
+            t.state_listeners.append(rec)
+            if path == '_initialize_upload':
+                kind, reason = sc[2]
+
+                async def reply(peer, message_class, fields=None, kind=kind, reason=reason):
+                    if kind == 'timeout':
+                        raise asyncio.TimeoutError()
+                    if kind == 'disconnect':
+                        from aioslsk.exceptions import PeerConnectionError
+                        raise PeerConnectionError('gone')
+                    return Mock(), PeerTransferReply.Request(ticket=fields['ticket'], allowed=(kind == 'allowed'), reason=reason,
+                                                             filesize=1000 if kind == 'allowed' else None)
+                mgr._network.create_peer_response_future = reply
+                coro = mgr._initialize_upload(t)
+            else:
+                conn = MagicMock()
+                conn.username = 'peer'
+                if path == '_on_peer_transfer_queue_failed':
+                    msg = PeerTransferQueueFailed.Request(filename='@abc\\song.mp3', reason='Cancelled')
+                else:
+                    msg = PeerUploadFailed.Request(filename='@abc\\song.mp3')
+                coro = getattr(mgr, path)(msg, conn)
+            try:
+                loop.run_coro(coro, timeout_virtual=600)
+            except Exception:
+                pass      # what the mocked network makes of the rest of the path is not the point: the reported changes are
+        finally:
+            vloop.close_loop(loop)
+        wit = {'level': 'negotiation', 'scenario': list(sc)}
+        for old, new in rec.edges:
+            mon.nedges += 1
+            if (old, new) not in mon.doc:
+                run.add_finding(Finding(f'undocumented-edge:{old}->{new}', f'{sc[0]}: listener observed {old}->{new}, not an edge of the documented graph',
+                                        wit, observed=rec.edges, expected='edges of the documented graph'))
+        for (_, n1), (o2, _) in zip(rec.edges, rec.edges[1:]):
+            if n1 != o2:
+                run.add_finding(Finding('listener-notifications-do-not-chain', f'{sc[0]}: listener was told {rec.edges}', wit, observed=rec.edges))
+        run.case({'negotiation': list(map(str, sc))}, nontrivial=bool(rec.edges), kind='manager-negotiation')
+
+
+def natural(tmp, state, direction, cfg, calls, mon: Monitor, manager=False, long_wait=False):
     """gather()-like run on a plain asyncio.Lock: all coroutines created, then all started, slow operations
     completed in order; the lock hands over by itself."""
     h = L.Harness(tmp, state, direction, cfg, gate=False, with_manager=manager)
@@ -407,6 +489,12 @@ def natural(tmp, state, direction, cfg, calls, mon: Monitor, manager=False):
             per[-1] = obs
         events += [('W',)] * n
         per += [[]] * n
+        if long_wait and h.enabled_step():
+            # the slow operation takes a minute (hanging disk, peer that does not close): waiters must simply keep waiting
+            ctx['long_wait'] = True
+            h.loop.run_for(60.0)
+            h.settle()
+            per[-1] = per[-1] + h.take()
         guard = 0
         while h.enabled_step() and guard < 20:
             h.do_step()
@@ -525,6 +613,7 @@ def run(run: Run):
         for state in L.STATES:
             for direction in L.DIRS:
                 helper_scenarios(tmp, state, direction, mon, run)
+        negotiation(mon, run)
         run.cov['exhaustive_part'] = 'state x direction x operation x argument x %d configurations' % len(CFGS)
         _t = _mark(run, 'single', _t)
         # manager level: abort/queue/pause raise InvalidStateTransition iff the state method returns False
@@ -592,6 +681,10 @@ def run(run: Run):
                         for b in L.OPS:
                             cases.append(natural(tmp, state, direction, cfg, [one_call(a), one_call(b)], mon))
                             run.case({'s': state, 'd': direction, 'gather': [a, b], 'rich': cfg is RICH}, kind='gather-state')
+                    for a in ('abort', 'pause'):       # the first operation holds the lock for a minute
+                        for b in L.OPS:
+                            cases.append(natural(tmp, state, direction, cfg, [one_call(a), one_call(b)], mon, long_wait=True))
+                            run.case({'s': state, 'd': direction, 'gather': [a, b], 'long': True}, kind='gather-state-long-wait')
                     for a in ('abort', 'queue', 'pause'):
                         for b in ('abort', 'queue', 'pause'):
                             ca = (a, 1, False) if a == 'abort' else (a, None, False)
@@ -637,7 +730,9 @@ def replay(rep) -> int:
     r = Run(prop='C03', tier='quick', seed=0)
     mon = Monitor(r)
     try:
-        if 'call' in wit:   # documented-effect finding on a single call
+        if wit.get('level') == 'negotiation':
+            negotiation(mon, r, only=wit['scenario'])
+        elif 'call' in wit:   # documented-effect finding on a single call
             run_sequential(tmp, wit['state'], wit['direction'], wit['cfg'], [tuple(wit['call'])], mon, manager=wit.get('level') == 'manager')
         elif wit.get('level') == 'manager' and not wit.get('natural'):
             run_sequential(tmp, wit['state'], wit['direction'], wit['cfg'], [tuple(c) for c in wit['calls']], mon, manager=True)
@@ -648,7 +743,11 @@ def replay(rep) -> int:
         elif wit.get('natural') or wit.get('schedule') == 'gather':
             w = dict(wit)
             w['schedule'] = 'gather'
-            replay_witness(tmp, w, mon)
+            if w.get('long_wait'):
+                natural(tmp, w['state'], w['direction'], L.default_cfg(**w.get('cfg', {})), [tuple(c) for c in w['calls']], mon,
+                        manager=w.get('level') == 'manager', long_wait=True)
+            else:
+                replay_witness(tmp, w, mon)
         else:
             run_sequential(tmp, wit['state'], wit['direction'], wit['cfg'], [tuple(c) for c in wit['calls']], mon)
     finally:
